@@ -46,6 +46,42 @@ CHECKS = {
         note=("Trusted: TLC, numpy, the oracle realisation (validated). The exactness argument needs svec congruence, "
               "which is C05/C02's statement. Bounded: det S <= 8; 14 crystal x supercell round-trip scenarios."),
         design="5/C06"),
+    "C17": dict(
+        text=("Calculators.tla models what the 16 calculator interfaces do to a cell: writer order (stable grouping by "
+              "first appearance or identity), labels, positions and moments written through that order, read back, the "
+              "same for every displaced supercell, then forces reported in file order and the displacement-agreement "
+              "check; the requirement is stated from the definition (same (species, position) set, order identity or "
+              "stable grouping, lattice equal or rigidly rotated where the format prescribes it, moments kept, FORCE_SETS "
+              "pairs right or refuses). TLC checks the machine exhaustively (all species sequences of length <= 6 over 3 "
+              "species x 16 interfaces in the thorough tier) and, in CalculatorsTrace, judges each predicate on the "
+              "projected result of every real write/read_crystal_structure, write_supercells_with_displacements and "
+              "create_FORCE_SETS run (inputs are TLC's own enumeration realised as triclinic cells with positions outside "
+              "[0,1)); read-backs are also compared with TLC's expected next state. Units.tla derives factor, NAC factor, "
+              "conversion factors and the fc-conversion table as exact exponent vectors over phonopy's base constants; "
+              "UnitsTrace checks the code's floats projected to monomials (1e-12) and that one physical crystal expressed "
+              "in each unit system gives the same THz frequencies, thermal properties and LO-TO splitting."),
+        note=("Trusted: TLC; the projection (position matching modulo 1 with tolerance derived from each writer's format "
+              "string; float->monomial search); own emitters/parsers for calculator outputs (our reading of the formats); "
+              "a cp2k_input_tools stand-in. Traits not defects: qe/siesta writers are partial, crystal/fleur readers cannot "
+              "read their writers' files directly. Bounds: <= 6 atoms in the model, <= 5 real (plus 10/13-atom cells), 3 "
+              "species, collinear moments, supercells det 2, type-1 datasets."),
+        design="5/C17 and 11.2"),
+    "C19": dict(
+        text=("RandomDisp.tla transcribes the sampling structure of RandomDisplacements as a step machine (SNF contract, "
+              "integer commensurate points, ii/ij categorisation, the real mode family with its sqrt2 and 1/sqrtN factors, "
+              "the eigen-solutions collected for run_d2f/run_correlation_matrix). TLC checks for every sublattice of Z^3 of "
+              "index <= 8 (quick) / 12 (thorough) that the points are the dual group once each, that ii/ij are exactly the "
+              "self-conjugate points and one member of every conjugate pair, dof = 3 n_prim N, and - exactly in Z[sqrt3] "
+              "when the group exponent divides 12 - that the real mode family is orthonormal; RandomDispCov.tla shows on an "
+              "exact Gaussian-rational model that the covariance of the _solve_ii/_solve_ij linear map is the canonical one. "
+              "RandomDispTrace/ThermalDispTrace evaluate the same requirement on values recorded from the real functions and "
+              "from real RandomDisplacements / thermal-displacement runs on TLC-computed spring-model crystals (A^T A of the "
+              "extracted linear map, .uu, .uu_inv, run_d2f, MSD matrices Hermitian PSD, diagonal = MSD, CIF congruence)."),
+        note=("Trusted: TLC; numpy eigh/exp applied to oracle values; the real SNF3x3 output (contract checked by TLC); "
+              "constants written out literally. Bounds: index <= 8/12; covariance model for exponent-4 groups; physical "
+              "cases N <= 27, <= 72 atoms; tolerance 1e-9 relative. Out of scope: imaginary modes, max_distance clipping, "
+              "yaml/CIF writers."),
+        design="5/C19 and 11.2"),
 }
 
 NOT_BUILT = "check under construction in this round; not yet claimed"
